@@ -329,7 +329,8 @@ def worker(args):
                     if not same:
                         note('history-independence', 'history:text-depends-on-map-order', P['pc'] + Q['pc'], f'{text_of(P["buf"])} vs {text_of(Q["buf"])}', model=m)
         out.update(stmts=M.stats['stmts'], feas_queries=M.nq, feas_s=round(M.qtime, 1))
-    except mirx.Unsupported as e:
-        out['error'] = 'unsupported: ' + str(e)
+    except Exception as e:
+        import traceback
+        out['error'] = ('unsupported: ' + str(e)) if isinstance(e, mirx.Unsupported) else ('internal error in the check machinery: ' + repr(e) + ' | ' + traceback.format_exc()[-700:])
     out['wall'] = round(time.time() - t0, 1)
     return out
